@@ -129,7 +129,8 @@ def provideParams (ch : Chain) (i : Nat) (avail : IMap) (down : Bool) (layer : N
   let fm := ch.get i
   let ch := ch.upd i fun f => if down then { f with usedByOut := [] } else { f with usedByRet := [] }
   let flow := if down then fm.c.out else fm.c.ret
-  (ch, (flow.filter (· != tNoType)).foldl (fun m t => m.add t layer i) avail)
+  -- (an `Unused` is on offer only from the automatic providers, invoke and init: include.go provideParameters)
+  (ch, (flow.filter (fun t => t != tNoType && (t != tUnused || fm.c.synthetic))).foldl (fun m t => m.add t layer i) avail)
 
 /-- `providesReturns` -/
 def providesReturns (ti : TyInfo) (ch : Chain) (initPos : Option Nat) : Chain :=
